@@ -50,6 +50,7 @@ COMPONENTS = {
     'b_var': z3.ArraySort(I, H), 'b_low': z3.ArraySort(I, I), 'b_high': z3.ArraySort(I, I),
     'b_term': z3.ArraySort(I, B), 'b_val': z3.ArraySort(I, B),
     'b_fl': z3.ArraySort(I, SetR), 'b_fh': z3.ArraySort(I, SetR),
+    'o_root': z3.ArraySort(I, I), 'o_ord': z3.ArraySort(I, I),      # OBDD objects: root node, ordering (an opaque value)
     'b_node': z3.ArraySort(I, B),      # type tag: the object is a BDD node (set by object.__new__(cls); False for dictionaries)
     # GHOST: the Boolean function a node denotes (assignment = set of true variables -> Bool); written only
     # by sidecar ghost code at the exit of the two __reset__ methods
@@ -171,7 +172,7 @@ def sv_ref(ty, t):
     return SV(ty, t)
 
 
-REF_TYPES = ('set', 'list', 'dlist', 'pairlist', 'dict', 'fdict', 'graph', 'kripke', 'keys', 'reflist', 'fseq', 'bnode', 'refdict', 'refdict2')
+REF_TYPES = ('set', 'list', 'dlist', 'pairlist', 'dict', 'fdict', 'graph', 'kripke', 'keys', 'reflist', 'fseq', 'bnode', 'refdict', 'refdict2', 'obdd')
 # 'dlist': a list without repeated elements that the code only reads (len, iteration, membership)
 
 
